@@ -456,7 +456,11 @@ def dump_one(f: TextIO, data: IOData):
     # write nuclear names, atomic numbers, and nuclear charges
     # add ghost atom, represented by Bq and atomic number 0
     symbols = {**num2sym, 0: "Bq"}
-    nuclear_names = [f" {symbols[num]}{index + 1}" for index, num in enumerate(data.atcorenums)]
+    # The name is derived from the atomic number, except for ghost atoms (zero core charge).
+    nuclear_names = [
+        f" {symbols[0 if corenum == 0 else atnum]}{index + 1}"
+        for index, (atnum, corenum) in enumerate(zip(data.atnums, data.atcorenums))
+    ]
     _write_xml_iterator(tag=lbs["nuclear_names"], info=nuclear_names, file=f)
     _write_xml_iterator(tag=lbs["atnums"], info=data.atnums, file=f)
     _write_xml_iterator_scientific(tag=lbs["nuclear_charge"], info=data.atcorenums, file=f)
